@@ -9,13 +9,16 @@ import (
 	"net/http"
 	"net/http/httptest"
 	"net/url"
+	goruntime "runtime"
 	"strings"
 	"sync"
 	"sync/atomic"
+	"testing/iotest"
 	"time"
 
 	"github.com/go-openapi/runtime"
 	"github.com/go-openapi/runtime/client"
+	"github.com/go-openapi/runtime/middleware"
 	"github.com/go-openapi/strfmt"
 
 	"verif/harness/internal/proto"
@@ -29,6 +32,12 @@ import (
 //	  client.Runtime.Submit against a RoundTripper that returns the crafted response.
 //	  flags = c<op client>p<preset client>o<op ctx>r<runtime ctx>t<timeout>g<debug>e<reader error>n<op client has no transport of its own>
 //	    ctx states: 0 none/nil, 1 live, 2 cancelled, 3 live with a deadline; timeout: 0 zero, 1 default, 2 one hour
+//	  further flag letters (absent = 0) choose among ways of doing the SAME thing, which the model does not
+//	  distinguish (it reads the letters above only): m<method 0-6> b<body delivery: 0 sized reader, 1 unknown
+//	  length, 2 one byte per Read, 3 last bytes together with EOF, 4 nil Body when empty> k<EnableConnectionReuse:
+//	  1 before any call, 2 just before the judged call> s<SetResponseReader: 1 nil (to be ignored), 2 an adapter of
+//	  the harness> d<1: Debug switched through SetDebug> w<Submit through 1 WithOpenTracing, 2 WithOpenTelemetry>
+//	  u<1: Runtime.Transport left nil, http.DefaultTransport standing in> z<1: an empty registry is a nil map>
 //	M <value> => <media type> <errmsg>
 //	  mime.ParseMediaType on the part of <value> before the first ';' (hand model of the stdlib parser)
 //	R <goroutines> <preset> <rounds> => <calls that got their own response> <requests the server saw>
@@ -97,6 +106,17 @@ func (t *c13RT) RoundTrip(req *http.Request) (*http.Response, error) {
 	return t.mk(req), nil
 }
 
+var c13Methods = []string{http.MethodGet, http.MethodPost, http.MethodHead, http.MethodPut, http.MethodDelete, http.MethodPatch, http.MethodOptions}
+
+// c13Resp is a response adapter of the harness (Runtime.SetResponseReader): the plain view of the *http.Response.
+type c13Resp struct{ r *http.Response }
+
+func (c c13Resp) Code() int                       { return c.r.StatusCode }
+func (c c13Resp) Message() string                 { return c.r.Status }
+func (c c13Resp) GetHeader(name string) string    { return c.r.Header.Get(name) }
+func (c c13Resp) GetHeaders(name string) []string { return c.r.Header.Values(name) }
+func (c c13Resp) Body() io.ReadCloser             { return c.r.Body }
+
 type c13NoLog struct{}
 
 func (c13NoLog) Printf(string, ...interface{}) {}
@@ -163,10 +183,43 @@ func c13Submit(in []string) []string {
 		for i := 0; i < len(names) && i < len(vals); i++ {
 			h.Add(names[i], vals[i])
 		}
-		return &http.Response{
+		resp := &http.Response{
 			StatusCode: code, Status: status, Proto: "HTTP/1.1", ProtoMajor: 1, ProtoMinor: 1,
 			Header: h, Body: io.NopCloser(strings.NewReader(body)), ContentLength: int64(len(body)), Request: req,
 		}
+		// the same bytes, delivered the other ways a wire delivers them
+		switch c13Flag(flags, 'b') {
+		case '1': // length not known in advance (chunked / read until close)
+			resp.ContentLength = -1
+		case '2':
+			resp.ContentLength = -1
+			resp.Body = io.NopCloser(iotest.OneByteReader(strings.NewReader(body)))
+		case '3':
+			resp.Body = io.NopCloser(iotest.DataErrReader(strings.NewReader(body)))
+		case '4': // a RoundTripper may leave Body nil when there is nothing to read (net/http then supplies an empty one)
+			// Not together with EnableConnectionReuse: client.KeepAliveTransport wraps the nil Body as it is and
+			// the first Read/Close dereferences it (reported as a possible finding by the widening audit; the
+			// stdlib's own Transport never returns a nil Body, so this lies outside the modelled wire).
+			if body == "" && c13Flag(flags, 'k') == '0' {
+				resp.Body = nil
+			}
+		}
+		return resp
+	}
+
+	// "the runtime's transport": Runtime.Transport, or — when that field is left nil — what net/http then
+	// uses, http.DefaultTransport. "the per-operation client": its own transport or, again, the default one.
+	// Only one of the two can borrow the default transport in a case.
+	bareOp := c13Flag(flags, 'c') == '1' && c13Flag(flags, 'n') == '1'
+	bareRT := !bareOp && c13Flag(flags, 'u') == '1'
+	if bareOp || bareRT {
+		tok := "op"
+		if bareRT {
+			tok = "rt"
+		}
+		saved := http.DefaultTransport
+		http.DefaultTransport = &c13RT{tok: tok, seen: seen, mk: mk}
+		defer func() { http.DefaultTransport = saved }()
 	}
 
 	var rt *client.Runtime
@@ -175,15 +228,39 @@ func c13Submit(in []string) []string {
 	} else {
 		rt = client.New("example.test", "/", []string{"http"})
 	}
-	rt.Transport = &c13RT{tok: "rt", seen: seen, mk: mk}
+	if bareRT {
+		rt.Transport = nil
+	} else {
+		rt.Transport = &c13RT{tok: "rt", seen: seen, mk: mk}
+	}
 	rt.DefaultMediaType = dflt
 	rt.Consumers = map[string]runtime.Consumer{}
 	for _, k := range keys {
 		rt.Consumers[k] = c13Consumer{key: k}
 	}
+	if len(keys) == 0 && c13Flag(flags, 'z') == '1' {
+		rt.Consumers = nil // no registry at all: reads of a nil map are legal Go
+	}
 	rt.Context = c13Ctx(c13Flag(flags, 'r'), "rt")
 	rt.SetLogger(c13NoLog{})
-	rt.Debug = c13Flag(flags, 'g') == '1'
+	if c13Flag(flags, 'd') == '1' {
+		// the setter also switches the server side's package flag: put that back afterwards
+		saved := middleware.Debug
+		defer func() { middleware.Debug = saved }()
+		rt.SetDebug(c13Flag(flags, 'g') == '1')
+	} else {
+		rt.Debug = c13Flag(flags, 'g') == '1'
+	}
+	adapted := 0
+	switch c13Flag(flags, 's') {
+	case '1':
+		rt.SetResponseReader(nil) // documented as a no-op
+	case '2':
+		rt.SetResponseReader(func(r *http.Response) runtime.ClientResponse { adapted++; return c13Resp{r} })
+	}
+	if c13Flag(flags, 'k') == '1' {
+		rt.EnableConnectionReuse()
+	}
 
 	type view struct {
 		called     bool
@@ -194,8 +271,12 @@ func c13Submit(in []string) []string {
 		body       string
 	}
 	var v view
+	method := http.MethodGet
+	if m := int(c13Flag(flags, 'm') - '0'); m >= 0 && m < len(c13Methods) {
+		method = c13Methods[m]
+	}
 	op := &runtime.ClientOperation{
-		ID: "c13", Method: http.MethodGet, PathPattern: "/", Schemes: []string{"http"},
+		ID: "c13", Method: method, PathPattern: "/", Schemes: []string{"http"},
 		ConsumesMediaTypes: []string{runtime.JSONMime},
 		Params: runtime.ClientRequestWriterFunc(func(req runtime.ClientRequest, _ strfmt.Registry) error {
 			switch c13Flag(flags, 't') {
@@ -208,12 +289,15 @@ func c13Submit(in []string) []string {
 		}),
 		Reader: runtime.ClientResponseReaderFunc(func(resp runtime.ClientResponse, cons runtime.Consumer) (interface{}, error) {
 			v.called = true
+			if _, mine := resp.(c13Resp); mine != (c13Flag(flags, 's') == '2') {
+				v.message = fmt.Sprintf("?adapter %T;", resp)
+			}
 			if c, ok := cons.(c13Consumer); ok {
 				v.cons = c.key
 			} else {
 				v.cons = fmt.Sprintf("?%T", cons)
 			}
-			v.code, v.message = resp.Code(), resp.Message()
+			v.code, v.message = resp.Code(), v.message+resp.Message()
 			for _, q := range queries {
 				v.first = append(v.first, resp.GetHeader(q))
 				v.all = append(v.all, proto.L(resp.GetHeaders(q)))
@@ -232,12 +316,9 @@ func c13Submit(in []string) []string {
 	}
 	bareOpClient := false
 	if c13Flag(flags, 'c') == '1' {
-		if c13Flag(flags, 'n') == '1' {
+		if bareOp {
 			// a per-operation client without a transport of its own: it uses http.DefaultTransport,
-			// which stands in for "the per-operation client" here (restored after the call)
-			saved := http.DefaultTransport
-			http.DefaultTransport = &c13RT{tok: "op", seen: seen, mk: mk}
-			defer func() { http.DefaultTransport = saved }()
+			// which stands in for "the per-operation client" here (swapped in above, restored after the call)
 			op.Client = &http.Client{}
 			bareOpClient = true
 		} else {
@@ -264,7 +345,22 @@ func c13Submit(in []string) []string {
 		_, _ = rt.Submit(&warm)
 		rt.Consumers = real
 	}
-	res, err := rt.Submit(op)
+	if c13Flag(flags, 'k') == '2' {
+		rt.EnableConnectionReuse() // after the warm-up (if any) the Runtime's client exists: the other branch
+	}
+	// the traced transports hand the call on to the Runtime (no span in any generated context)
+	var tr runtime.ClientTransport = rt
+	switch c13Flag(flags, 'w') {
+	case '1':
+		tr = rt.WithOpenTracing()
+	case '2':
+		tr = rt.WithOpenTelemetry()
+	}
+	adapted = 0
+	res, err := tr.Submit(op)
+	if c13Flag(flags, 's') == '2' && v.called && adapted != 1 {
+		seen.client += fmt.Sprintf("+adapter-calls=%d", adapted)
+	}
 	if bareOpClient && op.Client.Transport != nil {
 		seen.client += "+caller-client-modified"
 	}
@@ -300,19 +396,40 @@ func c13Submit(in []string) []string {
 // carries its own token; the server echoes it in a header and in the body under a per-call content
 // type parameter. Returns how many calls saw exactly their own token, and how many requests the
 // server counted.
+//
+// The property speaks of any GOMAXPROCS, of operation-level clients and contexts and of every way a
+// response selects its consumer; all of these are drawn from the three numbers of the case (no model
+// input): the number of Ps, whether Debug is on, which goroutines bring their own client / context /
+// method, and which of the three kinds of response (registered type with a parameter, unregistered
+// type, no Content-Type at all = the Runtime's default media type) a token gets.
 func c13Race(n int, preset bool, rounds int) []string {
+	if p := []int{0, 1, 2, 4}[(n+rounds)%4]; p > 0 {
+		defer goruntime.GOMAXPROCS(goruntime.GOMAXPROCS(p))
+	}
+	kindOf := func(tok string) int {
+		k := 0
+		for i := 0; i < len(tok); i++ {
+			k += int(tok[i])
+		}
+		return k % 3
+	}
 	var served int64
 	srv := httptest.NewServer(http.HandlerFunc(func(w http.ResponseWriter, r *http.Request) {
 		atomic.AddInt64(&served, 1)
 		tok := r.URL.Query().Get("tok")
 		w.Header().Set("X-Tok", tok)
-		if len(tok)%2 == 0 {
+		switch kindOf(tok) {
+		case 0:
 			w.Header().Set("Content-Type", "text/plain; tok="+tok)
-		} else {
+		case 1:
 			w.Header().Set("Content-Type", "application/x-"+tok)
+		default:
+			w.Header()["Content-Type"] = nil // no header line at all (and no sniffing)
 		}
 		w.WriteHeader(http.StatusOK)
-		_, _ = io.WriteString(w, "body-"+tok)
+		if r.Method != http.MethodHead {
+			_, _ = io.WriteString(w, "body-"+tok)
+		}
 	}))
 	defer srv.Close()
 	u, _ := url.Parse(srv.URL)
@@ -322,12 +439,19 @@ func c13Race(n int, preset bool, rounds int) []string {
 	} else {
 		rt = client.New(u.Host, "/", []string{"http"})
 	}
-	rt.Consumers = map[string]runtime.Consumer{"text/plain": c13Consumer{key: "text/plain"}, "*/*": c13Consumer{key: "*/*"}}
-	rt.Debug = false
+	rt.Consumers = map[string]runtime.Consumer{"text/plain": c13Consumer{key: "text/plain"}, "*/*": c13Consumer{key: "*/*"},
+		"application/x-dflt": c13Consumer{key: "dflt"}}
+	rt.DefaultMediaType = "application/x-dflt"
+	rt.SetLogger(c13NoLog{})
+	rt.Debug = n%4 == 1 // the dumps are per call; the logger is shared
 	if n%3 == 0 {
 		// exported fields a caller may leave unset: a call must read them, never fill them in
 		rt.Context = nil
 	}
+	if rounds%2 == 0 && n%2 == 0 {
+		rt.EnableConnectionReuse() // before any call, as documented
+	}
+	shared := &http.Client{} // one operation-level client used by several goroutines at once
 
 	var ok int64
 	var wg sync.WaitGroup
@@ -342,11 +466,8 @@ func c13Race(n int, preset bool, rounds int) []string {
 				if g%2 == 1 {
 					tok += "x"
 				}
-				want := "*/*"
-				if len(tok)%2 == 0 {
-					want = "text/plain"
-				}
-				res, err := rt.Submit(&runtime.ClientOperation{
+				want := []string{"text/plain", "*/*", "dflt"}[kindOf(tok)]
+				op := &runtime.ClientOperation{
 					ID: "c13r", Method: http.MethodGet, PathPattern: "/", Schemes: []string{"http"},
 					ConsumesMediaTypes: []string{runtime.JSONMime},
 					Params: runtime.ClientRequestWriterFunc(func(req runtime.ClientRequest, _ strfmt.Registry) error {
@@ -360,7 +481,23 @@ func c13Race(n int, preset bool, rounds int) []string {
 						c, _ := cons.(c13Consumer)
 						return resp.GetHeader("X-Tok") + "|" + string(b) + "|" + c.key, nil
 					}),
-				})
+				}
+				switch g % 5 {
+				case 2:
+					op.Client = shared
+				case 3:
+					op.Context = context.WithValue(context.Background(), c13CtxKey{}, tok)
+				case 4:
+					op.Client, op.Context = &http.Client{}, context.Background()
+				}
+				if (g+k)%7 == 6 {
+					op.Method = http.MethodPost
+				}
+				var tr runtime.ClientTransport = rt
+				if g%6 == 5 {
+					tr = rt.WithOpenTracing() // a wrapper per call around the one Runtime
+				}
+				res, err := tr.Submit(op)
 				if err == nil && res == tok+"|body-"+tok+"|"+want {
 					atomic.AddInt64(&ok, 1)
 				}
@@ -490,6 +627,9 @@ func c13GenS(r *proto.Rng) []string {
 	}
 
 	code := []int{200, 200, 200, 201, 204, 301, 302, 307, 400, 404, 500, 503, 0, 99, 100, 999}[r.Intn(16)]
+	if r.Chance(1, 4) {
+		code = r.Intn(1000) // any three-digit code (and below): 1xx, 203, 206, 304, 308, 418, 451, 599 ...
+	}
 	status := fmt.Sprintf("%d %s", code, http.StatusText(code))
 	if r.Chance(1, 4) {
 		status = r.Pick("", "200 Fine", "whatever", "500", r.Bytes("abc 019\t", r.Intn(6)))
@@ -528,6 +668,10 @@ func c13GenS(r *proto.Rng) []string {
 	}
 	flags := string([]byte{'c', pick('0', "01"), 'p', pick('0', "01"), 'o', octx, 'r', ctx('1'),
 		't', pick('1', "012"), 'g', pick('0', "01"), 'e', pick('0', "01"), 'n', pick('0', "01")})
+	// other ways of doing the same thing (see the stream description); each is left at its plain form in
+	// most cases so that every combination with the letters above keeps being produced
+	flags += string([]byte{'m', pick('0', "0123456"), 'b', pick('0', "12344"), 'k', pick('0', "0122"), 's', pick('0', "0122"),
+		'd', pick('0', "01"), 'w', pick('0', "01212"), 'u', pick('0', "01"), 'z', pick('1', "01")})
 	return c13Case(hdrs, dflt, keys, code, status, queries, string(body), flags)
 }
 
